@@ -160,7 +160,7 @@ Definition msgs_len (ms : list message) : Z := fold_right (fun m acc => len (snd
 Inductive rresult := ROk (s : rstate) (delivered : list message) | RAssert.
 
 Definition far_ahead (s : rstate) (t : Z) : bool :=
-  let d := serial_key (last_rx s) t in (65536 <=? d) && (d <? SCTP_TSN_MODULO / 2).
+  let d := serial_key (last_rx s) t in (65536 <=? d) && (d <=? SCTP_TSN_MODULO / 2).
 
 (* _receive_data_chunk *)
 Definition receive_data (s0 : rstate) (c : chunk) : rresult :=
